@@ -51,6 +51,8 @@ func NewCtx(g *cv.Gen, n, me int, kind string) *Ctx {
 		app = channel.NoApp()
 	case "pay":
 		app = cv.PayApp
+	case "action":
+		app = &actApp{MockApp: *cv.MockApp}
 	default:
 		app = cv.MockApp
 	}
@@ -172,7 +174,7 @@ func (c *Ctx) alloc(base int64) channel.Allocation {
 }
 
 func (c *Ctx) data() channel.Data {
-	if c.Kind == "mock" {
+	if c.Kind == "mock" || c.Kind == "action" {
 		return channel.NewMockOp(channel.OpValid)
 	}
 	return channel.NoData()
@@ -1159,17 +1161,10 @@ func (r *runner) exhaustive(n, me int, kind string, perFile int) (states, transi
 }
 
 // randomOp picks the next operation of a random sequence, biased towards operations that make progress.
-func (c *Ctx) randomOp(m *channel.StateMachine) Op {
+func (c *Ctx) randomOp(m machView) Op {
 	g := c.G
 	ph := m.Phase()
-	stg, cur := m.StagingTX(), m.CurrentTX()
-	curS := cur.State
-	if curS == nil {
-		curS = c.Base(0, false)
-	}
-	if curS.Valid() != nil || curS.NumParts() != c.N {
-		curS = c.Base(curS.Version, false)
-	}
+	cur := m.CurrentTX()
 	pick := func(xs ...string) string { return xs[g.R.Intn(len(xs))] }
 	var kind string
 	if g.R.Intn(100) < 65 { // phase-appropriate
@@ -1205,6 +1200,27 @@ func (c *Ctx) randomOp(m *channel.StateMachine) Op {
 		if kind == "ForceUpdate" && cur.State == nil {
 			kind = "Update" // the forced update is applied only to machines that already have a current state
 		}
+	}
+	return c.fillOp(kind, m)
+}
+
+// machView is what the generators look at (StateMachine and ActionMachine both provide it).
+type machView interface {
+	Phase() channel.Phase
+	StagingTX() channel.Transaction
+	CurrentTX() channel.Transaction
+}
+
+// fillOp chooses the arguments of an operation of the given kind.
+func (c *Ctx) fillOp(kind string, m machView) Op {
+	g := c.G
+	stg, cur := m.StagingTX(), m.CurrentTX()
+	curS := cur.State
+	if curS == nil {
+		curS = c.Base(0, false)
+	}
+	if curS.Valid() != nil || curS.NumParts() != c.N {
+		curS = c.Base(curS.Version, false)
 	}
 	o := Op{Kind: kind, Class: "-"}
 	switch kind {
@@ -1317,6 +1333,7 @@ func Run(prop string) func(seed int64, tier, out string) {
 				r.replays(2, r.g.R.Intn(2), kind, perFile)
 			}
 			r.sequences(100, 40, 25)
+			r.actionSequences(100, 40, 25)
 		case prop == "C09":
 			for _, cfg := range []struct {
 				n, me int
@@ -1327,6 +1344,7 @@ func Run(prop string) func(seed int64, tier, out string) {
 				transitions += t
 			}
 			r.sequences(1200, 300, 25)
+			r.actionSequences(1200, 200, 25)
 		case tier == "quick":
 			for _, kind := range []string{"none", "pay", "mock"} {
 				r.acting(2, r.g.R.Intn(2), kind, perFile)
@@ -1348,6 +1366,7 @@ func Run(prop string) func(seed int64, tier, out string) {
 		}
 		res.Rule = "T2: every abstract machine state (12 phases x staging {none, (final?, signature mask)} x current {none, signed, signed final, progressed}) built in the real code with RestoreStateMachine, one step of every operation class; " +
 			"T1: random operation sequences from fresh machines (65% phase-appropriate, 35% arbitrary operations; signatures valid / other signer / other state / replayed / foreign key / junk; candidates violating exactly one condition). " +
+			"TA (C09): random operation sequences on fresh ActionMachines over AddAction/Init/Update and every inherited operation, with an ActionApp answering value / ActionError / runtime error / panic / unusable allocations / invalid successors as chosen by the action codes; outcome, app consulted, snapshot and staging actions compared with Model/ActionMachine.v after every step. " +
 			"distinct = distinct (operation, argument class, phase before, staging/current presence, outcome, phase after)"
 		if states > 0 {
 			res.Exhaustive = false
